@@ -253,10 +253,15 @@ def c08(rep):
         hit = ps.fact(G)
         if hit:
             none, dflt = ps.fact('(%s == Py_None)' % G), ps.fact('default_')
-            if none is None or (none and dflt is None):
+            # either test decides alone when it is false (short-circuit order
+            # is free): no default, or not None -> the cached value
+            if none is False or dflt is False:
+                want = G
+            elif none is True and dflt is True:
+                want = 'default_'
+            else:
                 p_tab.append('cached None / default not examined')
                 continue
-            want = 'default_' if (none and dflt) else G
             kinds.add('hit-default' if want == 'default_' else 'hit')
             if r != want or dl:
                 p_tab.append('hit returns `%s` (required `%s`)' % (r[:50], want[:50]))
@@ -351,8 +356,14 @@ def c08(rep):
         want_r = 'default_' if (none and dflt) else res
         kinds.add('default' if want_r == 'default_' else 'value')
         same = ps.fact('(default_ == %s)' % res)
-        if same and r == res:
+        if same is None and none:
+            # the result is known to be None here: comparing the default with
+            # Py_None is the same test
+            same = ps.fact('(default_ == Py_None)')
+        if same and r in (res, 'Py_None'):
             continue        # the default is the None that was found
+        if none and not dflt and r in (res, 'Py_None'):
+            continue        # no default: None
         if r != want_r:
             p_res.append('returns `%s` (required `%s`)' % (r[-50:], want_r[-50:]))
     ccheck(rep, 'R08.1', '_adapter_hook', not p_del,
